@@ -2,11 +2,11 @@ SPECIFICATION Spec
 CONSTANTS
   Peers = {1, 2, 3}
   MaxR = 4
-  PT <- PTQuick
+  PT <- PTKinds
   Modes = {"run"}
   ChainedSet = {TRUE, FALSE}
   Starts = {1}
-  Targets = {0, 3}
+  Targets = {3}
   Corruptions <- NoCorruption
   NT = 1
   FollowRetries = FALSE
